@@ -349,7 +349,11 @@ bool ConfigObjectUtility::DeleteObjectHelper(const ConfigObject::Ptr& object, bo
 	Defer deletionDone ([&object]() { l_DeletionInProgress.erase(object.get()); });
 
 	for (auto& parentObj : parents) {
-		DeleteObjectHelper(parentObj, cascade, errors, diagnosticInformation, cookie);
+		/* A dependent which could not be deleted (its deactivation threw) still refers to this object:
+		 * do not delete the object underneath it and do not report success (the error has been recorded
+		 * by the failed call). */
+		if (!DeleteObjectHelper(parentObj, cascade, errors, diagnosticInformation, cookie))
+			return false;
 	}
 
 	ConfigItem::Ptr item = ConfigItem::GetByTypeAndName(type, name);
